@@ -1,16 +1,22 @@
 (* C28 - The tab-list model matches what the client was told.
    Only statements and `exact`; the proofs are in Proofs/C28*.v.
 
+   Baseline: /repo after the fix commits d54f770 (C28-1 = C07-1), d5f50a6 (C28-2), eb9ac68 (C28-3).
    [pstep cf ver tbl] is the proxy's 1.19.3+ tab list (TabList.Add / RemoveAll / entry setters /
-   ProcessUpdate / ProcessRemove) with the packets it makes the viewer receive; [spec_tcfg] is the
-   demanded behaviour (canonical action order on the wire, re-adding the held entry is a no-op,
-   a changed profile is sent as remove + add), [impl_tcfg] is today's code.  [client_after] is a
+   ProcessUpdate / ProcessRemove) with the packets it makes the viewer receive; [impl_tcfg] is the
+   code as it is now (canonical action order on the wire, re-adding the held entry is a no-op, a
+   changed profile is sent as remove + add), which is what the property demands ([tcfg_impl_is_spec]);
+   [old_tcfg] is the PRE-FIX code, about which the refutations at the end speak.  [client_after] is a
    reference vanilla client that decodes the BYTES of player-info update / remove packets and
    applies them; [view] is the proxy's Entries() as the client would show it. *)
 From Coq Require Import List NArith ZArith Bool String.
 From Verif Require Import Base.Hex Base.Assoc Model.TabList Proofs.C28_Struct Proofs.C28_Wire Proofs.C28.
 Import ListNotations.
 Open Scope N_scope.
+
+Theorem tcfg_impl_is_spec : impl_tcfg = spec_tcfg.
+Proof. exact tcfg_impl_is_spec_proof. Qed.
+Print Assumptions tcfg_impl_is_spec.
 
 (* "After any sequence of tab-list API changes and backend player-info updates/removals the entries
    the proxy reports are exactly the entries a vanilla client holds ... with the same profiles,
@@ -20,16 +26,16 @@ Open Scope N_scope.
    packets as action set + entries; the bytes are decoded by [client_after], see C28_wire below). *)
 Theorem C28_structured : forall ver tbl h P C,
   VRel ver tbl P C -> Forall (wf_top ver) h ->
-  forall k, option_map (pview ver tbl) (aget k (proxy_after spec_tcfg ver tbl P h))
-            = aget k (apply_all C (spackets spec_tcfg ver tbl P h)).
+  forall k, option_map (pview ver tbl) (aget k (proxy_after impl_tcfg ver tbl P h))
+            = aget k (apply_all C (spackets impl_tcfg ver tbl P h)).
 Proof. exact C28_struct. Qed.
 Print Assumptions C28_structured.
 
 (* from the empty list: view (proxy_after h) = client_after (packets h), entry for entry *)
 Theorem C28_from_empty : forall ver tbl h,
   Forall (wf_top ver) h ->
-  forall k, aget k (view ver tbl (proxy_after spec_tcfg ver tbl [] h))
-            = aget k (apply_all [] (spackets spec_tcfg ver tbl [] h)).
+  forall k, aget k (view ver tbl (proxy_after impl_tcfg ver tbl [] h))
+            = aget k (apply_all [] (spackets impl_tcfg ver tbl [] h)).
 Proof.
   intros ver tbl h W k. rewrite aget_view.
   exact (C28_struct ver tbl h [] [] (fun _ => eq_refl) W k).
@@ -44,8 +50,8 @@ Print Assumptions C28_from_empty.
    from the demanded tab list, and the state it ends in is, entry for entry, the proxy's view. *)
 Theorem C28 : forall ver tbl h,
   tbl_ok ver tbl -> wf_hist ver tbl [] h ->
-  exists c, client_after ver [] (packets spec_tcfg ver tbl [] h) = Some c /\
-            forall k, aget k (view ver tbl (proxy_after spec_tcfg ver tbl [] h)) = aget k c.
+  exists c, client_after ver [] (packets impl_tcfg ver tbl [] h) = Some c /\
+            forall k, aget k (view ver tbl (proxy_after impl_tcfg ver tbl [] h)) = aget k c.
 Proof. exact C28_wire. Qed.
 Print Assumptions C28.
 
@@ -80,53 +86,54 @@ Theorem same_view_is_equality : forall a b, same_view a b = true <-> (forall k, 
 Proof. exact same_view_spec. Qed.
 Print Assumptions same_view_is_equality.
 
-(* ---------- today's code (findings C28-1 = C07-1, C28-2, C28-3) ---------- *)
+(* ---------- the PRE-FIX code (findings C28-1 = C07-1, C28-2, C28-3; all fixed) ---------- *)
 
-(* C28-1: same action bit set, different bytes; the canonical encoder does not depend on the order *)
-Theorem impl_encoding_depends_on_caller_order :
+(* C28-1 (fixed): the pre-fix encoder: same action bit set, different bytes; the canonical encoder (today's) does not depend on the order *)
+Theorem old_encoding_depends_on_caller_order :
   let e := mkD 1 [] [] false 0 true 300 None 0 false in
   bits_of [3; 4] = bits_of [4; 3] /\
   encode_upsert false [3; 4] [e] <> encode_upsert false [4; 3] [e] /\
   encode_upsert true [3; 4] [e] = encode_upsert true [4; 3] [e].
 Proof. exact same_bits_different_bytes. Qed.
-Print Assumptions impl_encoding_depends_on_caller_order.
+Print Assumptions old_encoding_depends_on_caller_order.
 
-(* C28-1: a proxy-originated add is mis-decoded by the client: wrong values ... *)
-Theorem C28_refuted_wrong_values :
-  exists c, client_after 765 [] (packets impl_tcfg 765 [] [] [Add [(1, alice)]]) = Some c /\
+(* C28-1 (fixed): before the fix a proxy-originated add was mis-decoded by the client: wrong values ... *)
+Theorem old_C28_refuted_wrong_values :
+  exists c, client_after 765 [] (packets old_tcfg 765 [] [] [Add [(1, alice)]]) = Some c /\
             option_map c_gm (aget 1 c) = Some 0 /\ option_map c_latency (aget 1 c) = Some 1%Z /\
-            option_map c_gm (aget 1 (view 765 [] (proxy_after impl_tcfg 765 [] [] [Add [(1, alice)]]))) = Some 1 /\
-            option_map c_latency (aget 1 (view 765 [] (proxy_after impl_tcfg 765 [] [] [Add [(1, alice)]]))) = Some 300%Z.
+            option_map c_gm (aget 1 (view 765 [] (proxy_after old_tcfg 765 [] [] [Add [(1, alice)]]))) = Some 1 /\
+            option_map c_latency (aget 1 (view 765 [] (proxy_after old_tcfg 765 [] [] [Add [(1, alice)]]))) = Some 300%Z.
 Proof. exact order_refuted_values. Qed.
-Print Assumptions C28_refuted_wrong_values.
+Print Assumptions old_C28_refuted_wrong_values.
 
-(* ... or not decodable at all, while the demanded encoding of the same add is decoded to the proxy's view *)
-Theorem C28_refuted_undecodable :
-  client_after 765 [] (packets impl_tcfg 765 tbl_al [] [Add [(1, alice_named)]]) = None /\
-  exists c, client_after 765 [] (packets spec_tcfg 765 tbl_al [] [Add [(1, alice_named)]]) = Some c /\
-            same_view (view 765 tbl_al (proxy_after spec_tcfg 765 tbl_al [] [Add [(1, alice_named)]])) c = true.
+(* ... or not decodable at all, while today's encoding of the same add is decoded to the proxy's view *)
+Theorem old_C28_refuted_undecodable :
+  client_after 765 [] (packets old_tcfg 765 tbl_al [] [Add [(1, alice_named)]]) = None /\
+  exists c, client_after 765 [] (packets impl_tcfg 765 tbl_al [] [Add [(1, alice_named)]]) = Some c /\
+            same_view (view 765 tbl_al (proxy_after impl_tcfg 765 tbl_al [] [Add [(1, alice_named)]])) c = true.
 Proof. exact order_refuted_decode. Qed.
-Print Assumptions C28_refuted_undecodable.
+Print Assumptions old_C28_refuted_undecodable.
 
-(* C28-2: adding the entry the list already holds panics *)
-Theorem C28_readd_panics :
-  map m_ret (run impl_tcfg 765 [] [] [Add [(1, alice)]; AddLive 1]) = [TOk; TPanic].
+(* C28-2 (fixed): before the fix adding the entry the list already holds panicked *)
+Theorem old_C28_readd_panics :
+  map m_ret (run old_tcfg 765 [] [] [Add [(1, alice)]; AddLive 1]) = [TOk; TPanic].
 Proof. exact readd_panics. Qed.
-Print Assumptions C28_readd_panics.
+Print Assumptions old_C28_readd_panics.
 
-(* C28-3: an Add with an existing id and another profile changes the proxy's entry only *)
-Theorem C28_profile_change_lost :
+(* C28-3 (fixed): with the other two repaired but not this one (mkT true true false), an Add with an
+   existing id and another profile changed the proxy's entry only *)
+Theorem old_C28_profile_change_lost :
   exists c, client_after 765 [] (packets (mkT true true false) 765 [] [] [Add [(1, alice)]; Add [(1, bob_as_1)]]) = Some c /\
             option_map c_name (aget 1 c) = Some (tx "Alice") /\
             option_map c_name (aget 1 (view 765 [] (proxy_after (mkT true true false) 765 [] [] [Add [(1, alice)]; Add [(1, bob_as_1)]]))) = Some (tx "Bob").
 Proof. exact profile_change_lost. Qed.
-Print Assumptions C28_profile_change_lost.
+Print Assumptions old_C28_profile_change_lost.
 
 (* premises are met, through the bytes: a history with add, re-add, profile change, setters, a backend
    join and a removal; the reference client decodes everything and ends with the proxy's view *)
 Example C28_demo :
   tbl_ok 765 [] /\ wf_hist 765 [] [] demo_history /\
-  exists c, client_after 765 [] (packets spec_tcfg 765 [] [] demo_history) = Some c /\
-            same_view (view 765 [] (proxy_after spec_tcfg 765 [] [] demo_history)) c = true /\
+  exists c, client_after 765 [] (packets impl_tcfg 765 [] [] demo_history) = Some c /\
+            same_view (view 765 [] (proxy_after impl_tcfg 765 [] [] demo_history)) c = true /\
             map fst c = [2].
 Proof. split; [exact (proj1 demo_wf_hist)|]. split; [exact (proj2 demo_wf_hist)|exact demo_agrees]. Qed.
